@@ -3,6 +3,7 @@ Driver side of engine `reader`: replays an op list on `Flussab.Reader` and print
 observation string as `harness/src/eng_reader.rs`.
 -/
 import Flussab.Model.Reader
+import Flussab.Model.ReaderGenRun
 import Driver.Util
 
 namespace Driver
@@ -57,9 +58,21 @@ def showRes (op : Reader.Op) : Reader.Res → String
       | .checkIoError => if b then "err" else "ok"
       | _ => if b then "t" else "f"
 
+/-- Everything of a reader state that an operation can change, as text (buffer digested). -/
+def stateSig (r : Reader) : String :=
+  s!"{r.posInBuf}/{r.validLen}/{r.buf.length}/{fnv64 r.buf}/{b2s r.complete}{b2s r.ioError}/{r.posOfBuf}/{r.markInBuf}/{r.chunk}/{r.src.calls}/{r.src.data.length}/{r.src.pre.length}/{r.src.sched.length}"
+
+/-- One operation on the hand-written model; the same operation is run on the model *generated from
+the Rust source* (`TieReader.genRun`), and a difference in result or state is made visible in the
+observation (it would also contradict theorem `TieReader.op_tied`). -/
 def runROp (r : Reader) : Option Reader.Op → String × Reader
   | none => ("bad-op", r)
-  | some op => let (res, r') := op.run r; (showRes op res, r')
+  | some op =>
+    let (res, r') := op.run r
+    let (gres, gr') := TieReader.genRun r op
+    let out := showRes op res
+    if showRes op gres == out && stateSig gr' == stateSig r' then (out, r')
+    else (out ++ "!GENERATED-MODEL-DIFFERS:" ++ showRes op gres, r')
 
 def obsReader (res : String) (r : Reader) : String :=
   s!"{res}|{winhex r.window}|{r.position}|{r.mark}|{b2s r.isComplete}{b2s r.isAtEnd}{b2s r.ioError}|{r.src.calls}|{r.src.afterEnd}"
